@@ -19,7 +19,7 @@ static char *verif_retclass(Type *ty) {
   case TY_VOID: return "void";
   case TY_FLOAT: case TY_DOUBLE: return "sse";
   case TY_LDOUBLE: return "x87";
-  case TY_STRUCT: case TY_UNION: return ty->size > 16 ? "mem" : "agg";
+  case TY_STRUCT: case TY_UNION: return is_memory_class(ty) ? "mem" : "agg";
   default: return "int";
   }
 }
